@@ -187,6 +187,9 @@ Definition check_case (c : case) : bool :=
                 k += 1
             if rng.random() < 0.1:
                 rng.shuffle(tn)
+        if rng.random() < 0.2:
+            # to_cent_voicing resamples CENT values, which are negative below base_frequency: negative entries are data, not "unvoiced"
+            fs = [(-f if (f != 0 and rng.random() < 0.5) else f) for f in fs]
         c = {'k': 'res', 't': ts, 'f': fs, 'v': vs, 'tn': tn}
         z = rng.random()
         if z < 0.03 and n > 1:
